@@ -61,6 +61,16 @@ def prove (H4 : Bytes → Bytes → Bytes → Bytes → Bytes) (t : Trie) (k : K
 def storeProofTree (writtenPrefix readPrefix : Bytes) (n : Nat) (committed : Trie) : Trie :=
   if writtenPrefix == readPrefix then committed else empty n
 
+/-- the commitment object of the store `NewReadOnly(v)` returns: a fresh tree over the database (`fromDb`) when the `sc`
+field of its `&Store{…}` literal is `NewDefaultSMT(NewTxn(…))` (generated fact `readOnlyBuildsFreshCommitment`); a
+`NewReadOnly` that shares the live store's `s.sc` for `v = s.version` would serve `live`, which between `Root()` and
+`Commit()` is the speculative tree of the NEXT, uncommitted block -/
+def readOnlyServes (fresh : Bool) (live : Option Trie) (sameVersion : Bool) (fromDb : Trie) : Trie :=
+  if fresh then fromDb else
+  match live with
+  | some t => if sameVersion then t else fromDb
+  | none => fromDb
+
 /-! ## `VerifyProof` before the repair (commit 9904ec4) -/
 namespace V
 
